@@ -3,23 +3,33 @@ package main
 import (
 	"fmt"
 
-	"golang.org/x/text/language"
-
-	"verif/explore"
-	"verif/gen"
+	"verif/mapseed"
 )
 
 func main() {
-	for cm := 1; cm < 4; cm++ {
-		explore.Exec(func(c *explore.Ctx) {
-			f, spec := gen.Font(c, gen.FontOpts{Compact: true, NoMeta: true, GlyphCounts: []int{6}, Kinds: []int{gen.KindGlyf, gen.KindCFF}})
-			fmt.Printf("%+v\n", spec)
-			lay, err := f.NewLayouter(language.English, nil, nil)
-			fmt.Println(err)
-			for _, g := range lay.Layout("fBi") {
-				fmt.Printf("%d %q; ", g.GID, string(g.Text))
-			}
-			fmt.Println()
-		}, []int{0, 0, 0, 0, cm, 5}, false)
+	m := map[string]int{"a": 1, "b": 2, "c": 3, "d": 4, "e": 5}
+	res := mapseed.Under(func() string {
+		s := ""
+		for k := range m {
+			s += k
+		}
+		return s
+	})
+	fmt.Println(res)
+	big := mapseed.Under(func() string {
+		m := map[int]int{}
+		for i := 0; i < 20; i++ {
+			m[i] = i
+		}
+		s := ""
+		for k := range m {
+			s += fmt.Sprint(k, ",")
+		}
+		return s
+	})
+	seen := map[string]bool{}
+	for _, b := range big {
+		seen[b] = true
 	}
+	fmt.Println(len(seen), big[0], big[1])
 }
